@@ -15,6 +15,49 @@ import ordtab
 import project
 
 
+REL = {"Release", "AcqRel", "SeqCst"}
+ACQ = {"Acquire", "AcqRel", "SeqCst"}
+
+
+def site_orderings():
+    """orderings at the publishing / observing sites of the publication idioms, read from the source"""
+    import os
+    import re
+    raw = open(os.path.join(lib.REPO, "src", "raw", "mod.rs")).read()
+    mp = open(os.path.join(lib.REPO, "src", "map.rs")).read()
+    out = {}
+    m = re.search(r"fn cas_bin.*?compare_exchange\(\s*current,\s*new,\s*Ordering::(\w+)", raw, re.S)
+    out["CAS_REL"] = (m.group(1) in REL) if m else None
+    m = re.search(r"fn store_bin.*?\.store\(\s*new,\s*Ordering::(\w+)", raw, re.S)
+    out["STOREBIN_REL"] = (m.group(1) in REL) if m else None
+    out["BIN_ACQ"] = True     # guarded loads go through seize's protect: sequentially consistent
+    m = re.search(r"stick the node here!.*?n\.next\.store\(\s*node,\s*Ordering::(\w+)", mp, re.S)
+    out["APPEND_REL"] = (m.group(1) in REL) if m else None
+    return out
+
+
+def idiom_model(verdict):
+    """MC_MemModel.tla with the orderings the code passes: exhaustive over all interleavings"""
+    import os
+    so = site_orderings()
+    if any(v is None for v in so.values()):
+        return {"skipped": "could not locate all publication sites in the source", "sites": so}
+    cfg = os.path.join(lib.WORK, "MC_MemModel_code.cfg")
+    with open(cfg, "w") as f:
+        f.write("SPECIFICATION Spec\nCONSTANTS\n" + "".join("  %s = %s\n" % (k, "TRUE" if v else "FALSE") for k, v in so.items())
+                + "INVARIANT PublicationSafe\nCHECK_DEADLOCK FALSE\n")
+    r = lib.run_tlc("MC_MemModel", cfg=cfg, workers=2, timeout=300)
+    ok = "No error has been found" in r["out"]
+    if not ok and "PublicationSafe is violated" in r["out"]:
+        weak = [k for k, v in so.items() if not v]
+        verdict.violation("idiom:%s" % ",".join(weak), "idioms", {"orderings_from_source": so, "tlc_counterexample": r["out"][-6000:]},
+                          "with the orderings the code passes (%s) the publication idioms admit a dereference that is not ordered after "
+                          "the object's initialisation (TLC counterexample in the replay file)" % so)
+    elif not ok:
+        raise lib.ToolError("TLC failed on MC_MemModel:\n" + r["out"][-2000:])
+    return {"sites": so, "states": r["distinct"], "ok": ok}
+
+
 def run(pid, tier, seed, njobs=None):
     t0 = time.time()
     verdict = lib.Verdict(pid)
@@ -59,6 +102,7 @@ def run(pid, tier, seed, njobs=None):
         verdict.violation("hb:%s:%s" % (fu.get("e"), job.get("cfg")), rid,
                           {"job": job2, "event_index": d["matched_events"] + 1, "event": fu, "preceding": p["ev"][max(0, d["matched_events"] - 12):d["matched_events"]]},
                           "job %s: event %d of %d is not ordered by happens-before: %s" % (rid, d["matched_events"] + 1, d["total_events"], fu))
+    idiom = idiom_model(verdict)
     nev = sum(len(p["ev"]) for p in projected)
     cov = {"states": max(v["states"], 1), "transitions": max(v["states"], 1), "traces_validated_against_impl": len(v["accepted"]),
            "evaluations": len(jobs), "distinct_nontrivial": sum(1 for p in projected if sum(1 for e in p["ev"] if e["e"] == "deref") >= 3),
@@ -67,7 +111,7 @@ def run(pid, tier, seed, njobs=None):
                    "of objects allocated by another thread",
            "samples": [projected[0]["ev"][:8]] if projected else [], "events_replayed": nev,
            "cross_thread_derefs": sum(1 for p in projected for e in p["ev"] if e["e"] == "deref"),
-           "control_word_sites_resolved": len(otab), "control_word_sites_unresolved": len(unresolved), "relaxed_stores": sum(1 for p in projected for e in p["ev"] if e["e"] == "st" and not e["rel"]), "rejected": len(v["rejected"]),
+           "publication_idioms_model": idiom, "control_word_sites_resolved": len(otab), "control_word_sites_unresolved": len(unresolved), "relaxed_stores": sum(1 for p in projected for e in p["ev"] if e["e"] == "st" and not e["rel"]), "rejected": len(v["rejected"]),
            "tlc_trace_validation": {"states": v["states"], "distinct": v["distinct"], "wall_s": round(v["wall"], 1)}}
     rc = verdict.finish()
     lib.write_evidence(pid, tier, seed, "model_checking", cov, time.time() - t0, len(verdict.violations),
